@@ -55,13 +55,17 @@ func c08one(t *testing.T, out *verifh.Out, r *rand.Rand, dir string) {
 		if h == local {
 			continue
 		}
-		c := []int{0, 0, 0, 1, 2, 3, 4, 5}[r.Intn(8)] // 0 streaming 1 stopped 2 wrong source 3 not semi-sync 4 refusing 5 timing out
+		c := []int{0, 0, 0, 1, 2, 3, 4, 5, 6, 7}[r.Intn(10)] // 0 streaming 1 stopped 2 wrong source 3 not semi-sync 4 refusing 5 timing out 6 IO thread down with an error 7 SQL thread down with an error
 		conds[h] = c
 		nd := wd.Nodes[h]
 		if local == hosts[0] {
 			switch c {
 			case 1:
 				nd.Repl.IO = false
+			case 6:
+				nd.Repl.IO, nd.Repl.IOErrno = false, 2003
+			case 7:
+				nd.Repl.SQL, nd.Repl.SQLErrno = false, 1062
 			case 2:
 				nd.Repl.Source = "elsewhere"
 			case 3:
